@@ -24,7 +24,7 @@ def replay_or(ctx, family, trace_module, trace_cfg, full, driver_args=(), **tkw)
         scen = ctx.replay.get("scenario")
         if scen is None:
             raise Infra("replay file carries no scenario")
-        args = ctx.replay.get("driver_args") or list(driver_args)
+        args = []   # generation flags (-burst, -offsets, -variants ...) are not needed: the scenario is concrete
         ctx.seed = ctx.replay.get("seed", ctx.seed)
         out, nev, _ = vlib.run_driver(ctx, ctx.replay.get("family") or family, scen=[scen], n=0, args=args)
         ctx.verdicts += vlib.tlc_trace(ctx, trace_module, trace_cfg, out, nev, **tkw)
@@ -140,3 +140,94 @@ def c06(ctx):
     replay_or(ctx, "c06", "TraceRouter", "Trace_Router.cfg", full)
     ctx.assumptions += ["replies are observed by re-scanning the serialised reply with a plain XML token scan",
                         "not asserted: namespace matchers against an unregistered IQ payload; upper-case namespaces"]
+
+
+# ------------------------------------------------------------------ established session: C05 C09 C10 C12
+SESSION_INV = ("C05_AtMostOnce C05_OnlyReceivedStanzas C05_RoutedExactlyOnce C05_EveryRAnswered C09_InboundIsStanzaCount "
+               "C09_AnswersBounded C10_NonzasNeverHeld C10_NumbersIncreasing C10_HeldOnlyIfSM C10_NothingHeldTwice "
+               "C12_ReportedOnce C12_NothingDropped")
+
+
+def session_cfg(steps, maxsend, maxh, srv, send, sm, lockstep, cut, emit, renumber=True):
+    b = lambda x: "TRUE" if x else "FALSE"
+    return """SPECIFICATION Spec
+CONSTANTS
+  MaxSteps = %d
+  MaxSend = %d
+  MaxH = %d
+  SrvKinds <- %s
+  SendKinds <- %s
+  SM = %s
+  Renumber = %s
+  LockStep = %s
+  AllowCut = %s
+  Emit = %s
+INVARIANTS %s %s
+PROPERTIES C10_AckStep
+CHECK_DEADLOCK FALSE
+""" % (steps, maxsend, maxh, srv, send, b(sm), b(renumber), b(lockstep), b(cut), b(emit), SESSION_INV, "EmitInv" if emit else "")
+
+
+def session_check(ctx, gens, mcs, nvar, nburst, extra_scen=(), extra_args=()):
+    """gens: list of cfg kwargs for history generation (LockStep); mcs: for interleaving exploration."""
+    def full():
+        scen = []
+        for g in gens:
+            r = vlib.tlc_mc(ctx, "MC_Session", "MC_Session_gen.cfg", cfgtext=session_cfg(lockstep=True, emit=True, **g))
+            scen += blines(r)
+        for m in mcs:
+            vlib.tlc_mc(ctx, "MC_Session", "MC_Session_mc.cfg", cfgtext=session_cfg(lockstep=False, emit=False, **m), timeout=1500)
+        scen += list(extra_scen)
+        if not scen:
+            raise Infra("TLC emitted no behaviours")
+        out, nev, _ = vlib.run_driver(ctx, "sess", scen=scen, n=nvar, args=["-burst", str(nburst)] + list(extra_args), timeout=2400)
+        ctx.verdicts += vlib.tlc_trace(ctx, "TraceSession", "Trace_Session.cfg", out, nev, timeout=2400)
+    replay_or(ctx, "sess", "TraceSession", "Trace_Session.cfg", full)
+    ctx.assumptions += [
+        "barriers (quiescence) are detected with the verif hooks recv.wait/recv.next/recv.classified/route.begin/route.end and a byte counter on the client's connection; hooks only synchronise, they are never judged",
+        "retransmissions may or may not be renumbered: a step is a violation only if neither reading explains it",
+        "order of handler calls in a client is not asserted; routing of non-stanza elements is not asserted",
+        "the scripted negotiation (PLAIN, no TLS, bind, enable with resume) is a precondition; its failure is an infrastructure error"]
+
+
+@check("C05")
+def c05(ctx):
+    q = ctx.tier == "quick"
+    n = 3 if q else 4
+    gens = [dict(steps=n, maxsend=1, maxh=1, srv="SrvC05", send="SendOne", sm=True, cut=False),
+            dict(steps=n, maxsend=1, maxh=1, srv="SrvC05", send="SendOne", sm=False, cut=False)]
+    mcs = [dict(steps=n + 1, maxsend=1, maxh=1, srv="SrvQuick", send="SendOne", sm=True, cut=True)]
+    ctx.notes["bounds"] = "all inbound histories of length %d over {msg,pres,iqget,iqset,iqres,iqerr,r,a(h<=1),features} with <=1 user send, SM on and off; all route-goroutine interleavings in the model for length %d" % (n, n + 1)
+    session_check(ctx, gens, mcs, nvar=300 if q else 3000, nburst=150 if q else 2000)
+
+
+@check("C09")
+def c09(ctx):
+    q = ctx.tier == "quick"
+    n = 4 if q else 5
+    gens = [dict(steps=n, maxsend=1, maxh=1, srv="SrvC09", send="SendA", sm=True, cut=False)]
+    mcs = [dict(steps=n + 1, maxsend=1, maxh=1, srv="SrvC09", send="SendA", sm=True, cut=False)]
+    ctx.notes["bounds"] = "all inbound histories of length %d over {msg,pres,iqget,r,a(h<=1),features} plus a user-sent answer, SM on" % n
+    session_check(ctx, gens, mcs, nvar=300 if q else 3000, nburst=150 if q else 2000)
+
+
+@check("C10")
+def c10(ctx):
+    q = ctx.tier == "quick"
+    n = 4 if q else 5
+    gens = [dict(steps=n, maxsend=3, maxh=4, srv="SrvC10", send="SendC10", sm=True, cut=False)]
+    mcs = [dict(steps=n, maxsend=3, maxh=4, srv="SrvC10", send="SendC10", sm=True, cut=False),
+           dict(steps=n, maxsend=3, maxh=4, srv="SrvC10", send="SendC10", sm=True, cut=False, renumber=False)]
+    ctx.notes["bounds"] = "all outbound histories of length %d over Send/SendRaw/SendIQ of stanzas and of <r/>,<a/>, interleaved with server acks h in 0..4 and one inbound stanza kind, SM on" % n
+    session_check(ctx, gens, mcs, nvar=200 if q else 2000, nburst=0)
+
+
+@check("C12")
+def c12(ctx):
+    q = ctx.tier == "quick"
+    n = 3 if q else 4
+    gens = [dict(steps=n, maxsend=1, maxh=1, srv="SrvQuick", send="SendOne", sm=True, cut=True),
+            dict(steps=n, maxsend=1, maxh=1, srv="SrvQuick", send="SendOne", sm=False, cut=True)]
+    mcs = [dict(steps=n + 1, maxsend=1, maxh=1, srv="SrvQuick", send="SendOne", sm=True, cut=True)]
+    ctx.notes["bounds"] = "cut after every prefix of every history of length <= %d (SM on/off); seeded variants: RST instead of FIN, chunked writes, cut at byte offsets inside the last element" % n
+    session_check(ctx, gens, mcs, nvar=600 if q else 6000, nburst=100 if q else 1000, extra_args=["-offsets"])
